@@ -11,7 +11,7 @@ CONSTANTS
  Crash1 <- MCNone
  Crash2 <- MCNone
  Targets2 <- MCTargets1
- DevPlainOpen = TRUE
+ DevPlainOpen = FALSE
  DevFlushEarly = FALSE
  DevBackupOverwrite = FALSE
  DevNoBackup = FALSE
@@ -22,7 +22,7 @@ CONSTANTS
  DevMoveBeforeClose = FALSE
  DevRouteDiscard = FALSE
  DevStageFallback = FALSE
- DevBackupSkip = FALSE
+ DevBackupSkip = TRUE
  EnvInits <- MCEnvInits
-PROPERTY CommitOnly
+INVARIANT SuccessHasBackup
 CHECK_DEADLOCK FALSE
